@@ -250,6 +250,9 @@ let register_c18 reg =
   reg "runner_trace_ok" (function [n; tr] -> show_bool (runner_trace_ok (zv n) (L.map vev_of (lv tr))) | _ -> failwith "arity");
   reg "runner_times_ok" (function [d; f; rs; st] ->
     show_bool (runner_times_ok (zlist d) (zlist f) (zlist rs) (L.map (fun p -> match zlist p with [k; t] -> (k, t) | _ -> failwith "pair") (lv st)))
+    | _ -> failwith "arity");
+  reg "runner_timed_ok" (function [d; f; evs] ->
+    show_bool (runner_timed_ok (zlist d) (zlist f) (L.map (fun p -> match zlist p with [c; k; t] -> ((c, k), t) | _ -> failwith "triple") (lv evs)))
     | _ -> failwith "arity")
 let () = section register_c18
 
